@@ -31,10 +31,7 @@ namespace {
       while (gate.load() < nthreads) std::this_thread::yield();        // start together
       out.keep = std::make_unique<Interp>();
       Interp& in = *out.keep;
-      auto init = Value::object();
-      auto cs = Value::array();
-      for (int c : in.w.consts) cs.push(c);
-      init.set("op", "init").set("a", cs).set("q", 0).set("w", "").set("out", "ok").set("r", 0).set("o", Interp::no_obs());
+      auto init = init_event(in);
       out.lines.push_back(vj::dump(init));
       std::vector<Value> past;
       std::ostringstream os;
@@ -55,6 +52,19 @@ namespace {
          if (k % 5 == 0) {
             auto& id = in.w.lex.get_identifier(vh::u8("t" + std::to_string(rng.below(6))));
             auto v = in.w.unit.global_scope()->make_var(id, in.w.lex.get_pointer(in.w.lex.int_type()));
+            // declaration specifiers, different per thread and step, and their decomposition
+            {
+               const ipr::Lexicon& il = in.w.lex;
+               const ipr::Specifiers menu[] { il.static_specifier(), il.extern_specifier(), il.inline_specifier(), il.constexpr_specifier(),
+                                              il.virtual_specifier(), il.thread_local_specifier(), il.mutable_specifier(), il.friend_specifier() };
+               ipr::Specifiers sp { };
+               for (int b = 0; b < 8; ++b) if (rng.coin(30)) sp |= menu[b];
+               v->specifiers(sp);
+               os << '{';
+               for (auto& bs : il.decompose(sp)) os << vh::word(bs.logogram().what().characters()) << ' ';
+               for (auto& bq : il.decompose(in.w.quals(1 + rng.below(7)))) os << vh::word(bq.logogram().what().characters()) << ' ';
+               os << '}';
+            }
             (void)(*static_cast<const ipr::Scope*>(in.w.unit.global_scope()))[id];
             try { pp << ipr::xpr_decl(*v, true); } catch (const std::logic_error&) { }
          }
@@ -99,6 +109,14 @@ namespace {
          for (int t = 0; t < nthreads; ++t)
             ts.emplace_back(worker, t, seed + static_cast<unsigned long>(round) * 1000, len, std::ref(gate), nthreads, std::ref(work[static_cast<std::size_t>(t)]));
          for (auto& t : ts) t.join();
+         // what each thread printed must be what the same program prints when it runs alone
+         long prints_differ = 0;
+         for (int t = 0; t < nthreads; ++t) {
+            Work alone;
+            std::atomic<int> g1 { 0 };
+            worker(t, seed + static_cast<unsigned long>(round) * 1000, len, g1, 1, alone);
+            if (alone.printed != work[static_cast<std::size_t>(t)].printed or alone.lines != work[static_cast<std::size_t>(t)].lines) ++prints_differ;
+         }
          long shared = 0, const_mismatch = 0;
          for (std::size_t a = 0; a < work.size(); ++a) {
             for (auto& l : work[a].lines) std::cout << l << "\n";
@@ -117,7 +135,7 @@ namespace {
          // Lexicons alive at the same time share nothing but the constants (all are kept alive until the join).
          auto ev = Value::object();
          ev.set("op", "isolation").set("a", Value::array()).set("q", 0).set("w", "").set("out", "ok").set("r", 0).set("o", Interp::no_obs())
-            .set("threads", nthreads).set("constants_differ", const_mismatch).set("shared_nonconstant", shared);
+            .set("threads", nthreads).set("differs_from_running_alone", prints_differ).set("constants_differ", const_mismatch).set("shared_nonconstant", shared);
          std::cout << vj::dump(ev) << "\n";
       }
       return 0;
